@@ -6,6 +6,7 @@ sequences in which the consumer mutates everything it received.  Oracle per call
 referenced configurable, scope recorded inside it, structure received, and invariance of query_parameter /
 config_str / later calls under mutation.
 """
+import contextlib
 import copy
 import itertools
 
@@ -56,6 +57,16 @@ def setup():
   @gin.configurable(module='c04')
   def consumer(p=None, q=None):
     return p
+
+  @gin.configurable(module='c04')
+  def boom(kind=0):
+    raise [KeyboardInterrupt, SystemExit, GeneratorExit][kind % 3]('boom')
+
+  @gin.configurable(module='c04')
+  def aborter(v=None):
+    return v
+  global ABORTER
+  ABORTER = aborter
 
   @gin.configurable(module='c04')
   def strict(p=gin.REQUIRED, q=None):
@@ -198,8 +209,11 @@ def mutate(v):
       mutate(x)
 
 
-def run_sequence(sname, rscope, seq, res):
-  desc = [sname, rscope, [list(c) for c in seq]]
+_ABORTS = [0]
+
+
+def run_sequence(sname, rscope, seq, res, locked=False):
+  desc = [sname, rscope, [list(c) for c in seq]] + (['locked'] if locked else [])
   t = SHAPES[sname]
   text = 'c04.consumer.p = %s\nc04.g.tag = \'T\'\nc04.consumer.q = [0, {\'q\': []}]' % render(t, rscope)
   harness.hard_reset()
@@ -209,6 +223,16 @@ def run_sequence(sname, rscope, seq, res):
   except Exception as e:  # pylint: disable=broad-except
     res.extra['harness_error'] = 'parse failed for %r: %r' % (text, e)
     return
+  # History: a scoped reference whose callee exits by a non-Exception (Ctrl-C, SystemExit, GeneratorExit) was evaluated
+  # and the program carried on; and (locked runs) the configuration was finalized before the calls.
+  n = core.h64(repr(desc)) % 6      # which exception / which nesting: a function of the case, so replays agree
+  try:
+    gin.parse_config('c04.boom.kind = %d\nc04.aborter.v = %s' % (n, ['@z/c04.boom()', '[1, {2: @y/z/c04.boom()}]'][n % 2]))
+    ABORTER()
+  except BaseException:  # pylint: disable=broad-except
+    pass
+  if locked:
+    gin.finalize()
   cfg_before = gin.config_str()
   q_before = repr(gin.query_parameter('c04.consumer.p'))
   nmark = list(markers(t))
@@ -221,7 +245,8 @@ def run_sequence(sname, rscope, seq, res):
     base = len(CALLS)
     sentinel = ['caller']
     try:
-      with gin.config_scope(list(ambient) if ambient else None):
+      # (no scope block at all when the ambient scope is the root: an explicit block would mask a stale scope stack)
+      with (gin.config_scope(list(ambient)) if ambient else contextlib.nullcontext()):
         if override == 'none':
           got = CONSUMER()
         elif override == 'pos':
@@ -426,6 +451,12 @@ def gen(tier):
     for pair in itertools.permutations(REBIND_SCOPES, 2):
       for how in REBIND_HOW:
         yield 'REBIND', (sname, pair), how
+  call_menu2 = list(itertools.product(OVERRIDES, range(len(AMBIENT)), MUTATIONS))
+  for sname in SHAPES:
+    for rscope in REF_SCOPES[:2]:
+      for k in (1, 2):
+        for seq in itertools.product(call_menu2, repeat=k):
+          yield 'LOCKED', (sname, rscope), seq
   n = 3
   call_menu = list(itertools.product(OVERRIDES, range(len(AMBIENT)), MUTATIONS))
   for sname in SHAPES:
@@ -457,6 +488,9 @@ def run_shard(i, tier):
     if sname == 'REBIND':
       run_rebind(rscope[0], rscope[1], seq, res)
       continue
+    if sname == 'LOCKED':
+      run_sequence(rscope[0], rscope[1], seq, res, locked=True)
+      continue
     run_sequence(sname, rscope, seq, res)
     if n % 4001 == i:
       res.sample({'shape': render(SHAPES[sname], rscope), 'calls': [list(c) for c in seq]})
@@ -480,6 +514,6 @@ def replay(desc):
     run_dictkey(desc[1], desc[2], res)
     harness.hard_reset()
     return res
-  run_sequence(desc[0], desc[1], [tuple(c) for c in desc[2]], res)
+  run_sequence(desc[0], desc[1], [tuple(c) for c in desc[2]], res, locked=len(desc) > 3 and desc[3] == 'locked')
   harness.hard_reset()
   return res
